@@ -574,4 +574,204 @@ theorem OrderCert.mix {Nch Nref Nf n : Nat} {hi : Bool} {Om : Nat → Plscf.Cx K
 
 end cert
 
+/-! ## 4. `rmfd2ac` -/
+section rmfd
+variable {K : Type} [Field K]
+
+/-- the recorded solves conjugated by `Q`: `P_k' = Q·P_k·Qᵀ` -/
+def mixP (Nch : Nat) (Q : Nat → Nat → K) (P : Nat → Nat → Nat → K) : Nat → Nat → Nat → K :=
+  fun k => mixAlpha Nch Q (P k)
+
+theorem mixAlpha_shift {m : Nat} (hm : 0 < m) (Q : Nat → Nat → K) (α : Nat → Nat → K) (k I c : Nat) :
+    mixAlpha m Q α (k * m + I) c = mixAlpha m Q (fun I c => α (k * m + I) c) I c := by
+  unfold mixAlpha
+  apply rmix_congr; intro b _
+  rw [bmix_shift hm]
+
+/-- inside the first block: `(Q·α·Qᵀ)[a, c] = Σ_a' Σ_b' Q[a,a']·Q[c,b']·α[a',b']` -/
+theorem mixAlpha_low {m : Nat} (Q : Nat → Nat → K) (α : Nat → Nat → K) (a c : Nat) (ha : a < m) :
+    mixAlpha m Q α a c = ∑ a' ∈ range m, ∑ b' ∈ range m, Q a a' * Q c b' * α a' b' := by
+  rw [mixAlpha_comm, bmix_low Q _ a ha]
+  simp only [rmix_eq, Finset.mul_sum]
+  apply Finset.sum_congr rfl; intro a' _
+  apply Finset.sum_congr rfl; intro b' _; ring
+
+theorem bmix2_low {m : Nat} (Q : Nat → Nat → K) (G : Nat → Nat → K) (a c : Nat) (ha : a < m) (hc : c < m) :
+    bmix2 m Q G a c = mixAlpha m Q G a c := by
+  rw [mixAlpha_low Q G a c ha]
+  simp only [bmix2, sumTo_eq, Nat.mod_eq_of_lt ha, Nat.mod_eq_of_lt hc, Nat.div_eq_of_lt ha, Nat.div_eq_of_lt hc,
+    Nat.zero_mul, Nat.zero_add]
+
+/-- the state matrix of the mixed run is `(I⊗Q)·A·(I⊗Q)ᵀ` -/
+theorem companionA_mix {m : Nat} (hm : 0 < m) (Q : Nat → Nat → K) (hQ : OrthoOn m (trQ Q)) (p cnt : Nat)
+    (P : Nat → Nat → Nat → K) (i j : Nat) :
+    (companionA p m cnt (mixP m Q P)).e i j = bmix2 m Q (companionA p m cnt P).e i j := by
+  have hjm : j % m < m := Nat.mod_lt _ hm
+  have him : i % m < m := Nat.mod_lt _ hm
+  by_cases h1 : i < m
+  · -- the top block row: `-Q·P_k·Qᵀ`
+    have e : bmix2 m Q (companionA p m cnt P).e i j
+        = bmix2 m Q (fun I J => if j / m < cnt then - P (j / m) (I % m) (J % m) else 0) i j := by
+      apply bmix2_congr; intro a ha b hb
+      simp only [companionA, Nat.div_eq_of_lt h1, Nat.zero_mul, Nat.zero_add, if_pos ha, blk_div (j / m) hb,
+        blk_mod (j / m) hb, Nat.mod_eq_of_lt ha]
+    rw [e]
+    simp only [companionA, if_pos h1]
+    by_cases h2 : j / m < cnt
+    · simp only [if_pos h2]
+      rw [bmix2_neg, mixP, mixAlpha_low Q _ i _ h1]
+      congr 1
+      simp only [bmix2, sumTo_eq, Nat.mod_eq_of_lt h1, Nat.div_eq_of_lt h1, Nat.zero_mul, Nat.zero_add]
+      apply Finset.sum_congr rfl; intro a ha
+      apply Finset.sum_congr rfl; intro b hb
+      rw [Nat.mod_eq_of_lt (mem_range.mp ha), blk_mod (j / m) (mem_range.mp hb)]
+    · simp only [if_neg h2, bmix2, sumTo_eq, mul_zero, Finset.sum_const_zero]
+  · -- the shifted identity: `Q·I·Qᵀ = I`
+    have hi1 : 1 ≤ i / m := (Nat.one_le_div_iff hm).mpr (Nat.le_of_not_lt h1)
+    have e : bmix2 m Q (companionA p m cnt P).e i j
+        = bmix2 m Q (fun I J => if j / m + 1 = i / m then (if I % m = J % m then 1 else 0) else 0) i j := by
+      apply bmix2_congr; intro a ha b hb
+      have hge : ¬ i / m * m + a < m := by
+        have : m ≤ i / m * m := Nat.le_mul_of_pos_left m hi1
+        omega
+      simp only [companionA, if_neg hge, blk_mod (i / m) ha, blk_mod (j / m) hb]
+      have e1 : j / m * m + b + m = (j / m + 1) * m + b := by rw [Nat.add_mul, Nat.one_mul]; omega
+      rw [e1]
+      by_cases hk : j / m + 1 = i / m
+      · rw [if_pos hk, hk]
+        by_cases hab : a = b
+        · rw [if_pos hab, if_pos (by rw [hab])]
+        · rw [if_neg hab, if_neg (by omega)]
+      · rw [if_neg hk, if_neg]
+        intro e2
+        apply hk
+        have := congrArg (· / m) e2
+        simpa only [blk_div _ hb, blk_div _ ha] using this
+    rw [e]
+    simp only [companionA, if_neg h1]
+    have hdec : (j + m = i) ↔ (j / m + 1 = i / m ∧ i % m = j % m) := by
+      constructor
+      · intro e2
+        rw [← e2]
+        exact ⟨(Nat.add_div_right j hm).symm, Nat.add_mod_right j m⟩
+      · intro ⟨e2, e3⟩
+        rw [← Nat.div_add_mod' j m, ← Nat.div_add_mod' i m, ← e2, e3, Nat.add_mul, Nat.one_mul]
+        omega
+    by_cases hk : j / m + 1 = i / m
+    · simp only [if_pos hk]
+      have e4 : bmix2 m Q (fun I J => if I % m = J % m then (1 : K) else 0) i j
+          = rmix m Q (fun b => rmix m Q (fun a' => if a' = b then (1 : K) else 0) (i % m)) (j % m) := by
+        simp only [bmix2, rmix, sumTo_eq, Finset.mul_sum]
+        rw [Finset.sum_comm]
+        apply Finset.sum_congr rfl; intro b hb
+        apply Finset.sum_congr rfl; intro a ha
+        rw [blk_mod (i / m) (mem_range.mp ha), blk_mod (j / m) (mem_range.mp hb)]
+        ring
+      rw [e4, rmix_delta Q hQ _ _ him hjm]
+      by_cases e5 : i % m = j % m
+      · rw [if_pos e5, if_pos (hdec.mpr ⟨hk, e5⟩)]
+      · rw [if_neg e5, if_neg (fun e6 => e5 (hdec.mp e6).2)]
+    · simp only [if_neg hk, bmix2, sumTo_eq, mul_zero, Finset.sum_const_zero]
+      rw [if_neg (fun e6 => hk (hdec.mp e6).1)]
+
+/-- the output matrix of the mixed run is `R·C·(I⊗Q)ᵀ` -/
+theorem companionC_mix {m : Nat} (hm : 0 < m) (Q : Nat → Nat → K) (hQ : OrthoOn m Q) (p l cnt : Nat)
+    (R : Nat → Nat → K) (Bn : Nat → Nat → Nat → K) (P : Nat → Nat → Nat → K) (o j : Nat) :
+    (companionC p l m cnt (fun k o c => rmix l R (fun p' => rmix m Q (fun b => Bn k p' b) c) o) (mixP m Q P)).e o j
+      = rmix l R (fun p' => bmix m Q ((companionC p l m cnt Bn P).e p') j) o := by
+  have hjm : j % m < m := Nat.mod_lt _ hm
+  simp only [companionC]
+  by_cases h2 : j / m < cnt
+  · simp only [if_pos h2]
+    have e : ∀ p', bmix m Q (fun J => if J / m < cnt
+          then Bn (p - 2 - J / m) p' (J % m) - sumTo m (fun t => Bn (p - 1) p' t * P (J / m) t (J % m)) else 0) j
+        = rmix m Q (fun b => Bn (p - 2 - j / m) p' b) (j % m)
+          - ∑ t ∈ range m, Bn (p - 1) p' t * rmix m Q (P (j / m) t) (j % m) := by
+      intro p'
+      simp only [bmix, rmix, sumTo_eq]
+      have e1 : ∀ q ∈ range m, Q (j % m) q * (if (j / m * m + q) / m < cnt
+            then Bn (p - 2 - (j / m * m + q) / m) p' ((j / m * m + q) % m)
+              - ∑ t ∈ range m, Bn (p - 1) p' t * P ((j / m * m + q) / m) t ((j / m * m + q) % m) else 0)
+          = Q (j % m) q * Bn (p - 2 - j / m) p' q - ∑ t ∈ range m, Q (j % m) q * (Bn (p - 1) p' t * P (j / m) t q) := by
+        intro q hq
+        rw [blk_div (j / m) (mem_range.mp hq), blk_mod (j / m) (mem_range.mp hq), if_pos h2, mul_sub, Finset.mul_sum]
+      rw [Finset.sum_congr rfl e1, Finset.sum_sub_distrib]
+      congr 1
+      rw [Finset.sum_comm]
+      apply Finset.sum_congr rfl; intro t _
+      rw [Finset.mul_sum]
+      apply Finset.sum_congr rfl; intro q _; ring
+    simp only [e]
+    simp only [rmix_eq, Finset.mul_sum, mul_sub, Finset.sum_sub_distrib]
+    congr 1
+    -- `Σ_t (R·B_n·Qᵀ)[o,t]·(Q·P·Qᵀ)[t, c] = (R·(B_n·P)·Qᵀ)[o, c]`
+    have e3 : ∀ t ∈ range m, (∑ p' ∈ range l, ∑ b ∈ range m, R o p' * (Q t b * Bn (p - 1) p' b))
+          * mixP m Q P (j / m) t (j % m)
+        = ∑ p' ∈ range l, R o p' * (rmix m Q (fun b => Bn (p - 1) p' b) t
+            * rmix m Q (fun a' => rmix m Q (P (j / m) a') (j % m)) t) := by
+      intro t ht
+      rw [mixP, mixAlpha_comm, bmix_low Q _ t (mem_range.mp ht), Finset.sum_mul]
+      apply Finset.sum_congr rfl; intro p' _
+      rw [rmix_eq m Q (fun b => Bn (p - 1) p' b) t, ← Finset.mul_sum, mul_assoc]
+    rw [sumTo_eq, Finset.sum_congr rfl e3, Finset.sum_comm]
+    apply Finset.sum_congr rfl; intro p' _
+    rw [← Finset.mul_sum, rmix_isometry m Q hQ]
+    simp only [rmix_eq, Finset.mul_sum]
+  · simp only [if_neg h2]
+    have e : ∀ p', bmix m Q (fun J => if J / m < cnt
+          then Bn (p - 2 - J / m) p' (J % m) - sumTo m (fun t => Bn (p - 1) p' t * P (J / m) t (J % m)) else 0) j
+        = 0 := by
+      intro p'
+      simp only [bmix, sumTo_eq]
+      apply Finset.sum_eq_zero; intro q hq
+      rw [blk_div (j / m) (mem_range.mp hq), if_neg h2, mul_zero]
+    simp only [e, rmix_eq, mul_zero, Finset.sum_const_zero]
+
+/-- **`rmfd2ac` under `A_k' = Q·A_k·Qᵀ`, `B_k' = R·B_k·Qᵀ`**: the conjugated solves `Q·P_k·Qᵀ` are exact solves of the
+    mixed systems, the state matrix is `(I⊗Q)·A·(I⊗Q)ᵀ`, the output matrix is `R·C·(I⊗Q)ᵀ`. -/
+theorem RmfdCert.mix {Nch Nref n : Nat} {α α' : Nat → Nat → K} {β β' : Nat → Nat → Nat → K}
+    {P : Nat → Nat → Nat → K} {A C : Mat K} (h : RmfdCert Nch Nref n α β P A C)
+    (hN : 0 < Nch) {Q : Nat → Nat → K} (R : Nat → Nat → K) (hQ : Orth2 Nch Q)
+    (hα : ∀ I, I < (n + 1) * Nch → ∀ c, c < Nch → α' I c = mixAlpha Nch Q α I c)
+    (hβ : ∀ o, o < Nref → ∀ t, t < n + 1 → ∀ c, c < Nch → β' o t c = mixBeta Nref Nch R Q β o t c) :
+    RmfdCert Nch Nref n α' β' (mixP Nch Q P) (companionA (n + 1) Nch n (mixP Nch Q P))
+      (companionC (n + 1) Nref Nch n (fun k o c => β' o k c) (mixP Nch Q P)) ∧
+    (∀ i j, (companionA (n + 1) Nch n (mixP Nch Q P)).e i j = bmix2 Nch Q A.e i j) ∧
+    (∀ o, o < Nref → ∀ j,
+      (companionC (n + 1) Nref Nch n (fun k o c => β' o k c) (mixP Nch Q P)).e o j
+        = rmix Nref R (fun p => bmix Nch Q (C.e p) j) o) := by
+  refine ⟨⟨?_, rfl, rfl⟩, ?_, ?_⟩
+  · intro k hk a ha b hb
+    have hk1 : n + 1 - 2 - k < n + 1 := by omega
+    rw [hα _ (Plscf.blk_lt hk1 ha) b hb, mixAlpha_shift hN, sumTo_eq]
+    have hs := solve_mix 1 Q hQ.cols (fun I J => α (n * Nch + I) J) (P k) (fun I c => α ((n + 1 - 2 - k) * Nch + I) c)
+      (by
+        intro I hI c hc
+        rw [Nat.one_mul] at hI ⊢
+        have := h.hP k hk I hI c hc
+        rwa [sumTo_eq] at this) a (by rw [Nat.one_mul]; exact ha) b hb
+    rw [← hs, Nat.one_mul]
+    apply Finset.sum_congr rfl; intro t ht
+    rw [hα _ (Plscf.blk_lt (Nat.lt_succ_self n) ha) t (mem_range.mp ht), mixAlpha_shift hN,
+      bmix2_low Q _ a t ha (mem_range.mp ht)]
+    rfl
+  · intro i j
+    rw [h.hA]
+    exact companionA_mix hN Q hQ.rows (n + 1) n P i j
+  · intro o ho j
+    rw [h.hC, ← companionC_mix hN Q hQ.cols (n + 1) Nref n R (fun k o c => β o k c) P o j]
+    simp only [companionC]
+    by_cases h2 : j / Nch < n
+    · have hk1 : n + 1 - 2 - j / Nch < n + 1 := by
+        have := Nat.sub_le (n + 1 - 2) (j / Nch); omega
+      simp only [if_pos h2]
+      rw [hβ o ho _ hk1 _ (Nat.mod_lt _ hN)]
+      congr 1
+      apply sumTo_congr; intro t ht
+      rw [hβ o ho (n + 1 - 1) (by omega) t ht]
+      rfl
+    · simp only [if_neg h2]
+
+end rmfd
+
 end PV.Cov
